@@ -40,6 +40,7 @@ PIE_ALSO = {
     'C04': ('C09.bounded.inconsistent_dependency_schedules_its_task', 'C18.bounded.failed_check_schedules_the_task'),
     'C16': (),
 }
+FS_BOUNDS = {'quick': ['fs'], 'thorough': ['fs']}
 GRAPH_BOUNDS = {'quick': ['graph', '--k', '3', '--l', '4', '--random', '4000', '--len', '14'],
                 'thorough': ['graph', '--k', '4', '--l', '4', '--random', '60000', '--len', '18']}
 
@@ -55,7 +56,7 @@ ALSO = {
 }
 
 def _pie_case(r):
-    return {'engine': 'pie', 'rerun': r['rerun'], 'what': r['what'], 'case': r.get('case', '')}
+    return {'engine': r.get('engine', 'pie'), 'rerun': r['rerun'], 'what': r['what'], 'case': r.get('case', '')}
 
 def run(here, repo, pid, names, tier, seed):
     """names: 'graph' -> bounded enumeration of the graph crate; 'pie' -> bounded exploration of the pie crate through its
@@ -65,9 +66,9 @@ def run(here, repo, pid, names, tier, seed):
     if binp is None:
         out['undecided'].append('bounded stand-in does not build against the current tree: ' + err); return out
     for name in names:
-        if name not in ('graph', 'pie'): continue
+        if name not in ('graph', 'pie', 'fs'): continue
         t0 = time.time()
-        bounds = GRAPH_BOUNDS if name == 'graph' else PIE_BOUNDS
+        bounds = {'graph': GRAPH_BOUNDS, 'pie': PIE_BOUNDS, 'fs': FS_BOUNDS}[name]
         args = bounds['thorough' if tier == 'thorough' else 'quick'] + ['--seed', str(seed or 1)]
         try:
             rc, recs, err = _run(binp, args)
@@ -79,12 +80,14 @@ def run(here, repo, pid, names, tier, seed):
                                'violations_found': len(vio), 'wall_s': round(time.time() - t0, 1),
                                'stands_in_for': ('R6 adapter-chain getters (get_incoming/outgoing_*, iter_unsorted, descendants constructor) and cross-check of the contracts'
                                                  if name == 'graph' else
+                                                 'the assumed std::fs/io/sha2 shim contracts of unit fs and every construct outside them: the real checkers on real temporary files with explicitly set modification times, all ordered pairs of 20 path states (absent, files around and beyond the read buffer, directories), three stamp routes, read-through after stamp_reader, Resource::write'
+                                                 if name == 'fs' else
                                                  'the functions not under contract (bottom-up context, Tracking bodies, ResourceDependency::check/is_consistent, SessionInternal::require, trait-object identity) '
                                                  'and the composition of the per-function contracts over whole builds; random well-formed task programs and histories on the real crate, '
                                                  'checked against a from-scratch build on a fresh instance and against a model of the recorded dependencies rebuilt from the event stream')}
         if not summ and not vio:
             out['undecided'].append('bounded stand-in produced no summary: ' + err)
-        also = (ALSO if name == 'graph' else PIE_ALSO).get(pid, ())
+        also = (ALSO if name == 'graph' else PIE_ALSO if name == 'pie' else {}).get(pid, ())
         for r in vio:
             if r['property'] == pid or r['obligation'] in also:
                 if name == 'graph':
@@ -92,7 +95,7 @@ def run(here, repo, pid, names, tier, seed):
                                               'diagnostics': [{'message': r['what'], 'at': [json.dumps(r['ops'])], 'gen_lines': []}],
                                               'concrete_input': {'engine': 'graph', 'ops': r['ops'], 'what': r['what']}, 'site': json.dumps(r['ops'])})
                 else:
-                    out['violations'].append({'obligation': r['obligation'], 'unit': 'bounded:pie', 'backend': 'bounded exploration of the real crate',
+                    out['violations'].append({'obligation': r['obligation'], 'unit': 'bounded:' + name, 'backend': 'bounded exploration of the real crate',
                                               'diagnostics': [{'message': r['what'], 'at': [r['rerun']], 'gen_lines': []}],
                                               'concrete_input': _pie_case(r), 'site': r['rerun']})
             else:
@@ -103,6 +106,15 @@ def search_counterexample(here, repo, pid, obligation):
     """When a Verus obligation fails: look for a concrete failing operation sequence / build history on the real crate."""
     binp, err = _build(here, repo)
     if binp is None: return None
+    if obligation.split('.')[0] == 'C13':
+        try:
+            rc, recs, err = _run(binp, ['fs'], timeout=900)
+        except subprocess.TimeoutExpired:
+            return None
+        vio = [r for r in recs if r.get('violation')]
+        if not vio: return None
+        c = _pie_case(vio[0]); c['found_for'] = vio[0]['obligation']
+        return c
     if obligation.split('.')[0] in ('C10', 'C11', 'C07', 'C16', 'C02'):
         try:
             rc, recs, err = _run(binp, GRAPH_BOUNDS['quick'] + ['--seed', '1'], timeout=900)
@@ -125,7 +137,7 @@ def search_counterexample(here, repo, pid, obligation):
     return c
 
 def replay_case(here, repo, pid, case):
-    if case.get('engine') not in ('graph', 'pie'): return True, 'no replay engine for this case'
+    if case.get('engine') not in ('graph', 'pie', 'fs'): return True, 'no replay engine for this case'
     binp, err = _build(here, repo)
     if binp is None: return True, 'replay binary does not build: ' + err
     if case['engine'] == 'graph':
